@@ -113,9 +113,9 @@ pub fn prose(n: usize, long: bool) -> Inputs {
     out
 }
 
-pub const MATH_ALPHABET: [&str; 20] = [
+pub const MATH_ALPHABET: [&str; 23] = [
     "x", "pi", "12", "\"t\"", "f(x)", "x_1", "x^2", "a/b", "(x)", "[x]", "|x|", "#a", "&", "\\", "->", "x.y", "x'", "√x", "/*c*/",
-    "mat(1, 2; 3, 4)",
+    "mat(1, 2; 3, 4)", "sin(x)", "vec(1, 2)", "fn()",
 ];
 
 /// Math-centred model: all sequences of <= `n` math items with {nothing, space, line feed}
